@@ -246,7 +246,7 @@ def run_matrices(case):
 
 def _modal_cfgs(tier, max_m):
   # purely spectral: node counts are irrelevant, keep them minimal (constructors never touch the basis)
-  return gc.grid_cfgs(max_m=max_m, kinds=('modal_only',), resolutions=('resolved',), special=False, max_slack=1)
+  return gc.grid_cfgs(max_m=max_m, min_m=2, kinds=('modal_only',), resolutions=('resolved',), special=False, max_slack=1)
 
 
 def _matrices_strategy(tier):
@@ -494,26 +494,26 @@ def _random_case(draw, tier):
 SUBCHECKS = [
     Subcheck('operator_matrices', run_matrices, strategy=_matrices_strategy,
              examples={'quick': 40, 'thorough': 240}, shards={'quick': 2, 'thorough': 8},
-             wall={'quick': 900.0, 'thorough': 1500.0}, weight=3,
+             wall={'quick': 300.0, 'thorough': 1500.0}, weight=3,
              rule='non-trivial = L >= 3 and M >= 2 (all unit vectors: m=l diagonal, l=L-2 and l=L-1 are always touched)',
              doc='14 operator matrices vs integrated oracle matrix elements; clip semantics; Laplacian inverse'),
     Subcheck('operator_matrices_large', run_large, cases=_large_cases,
-             shards={'quick': 1, 'thorough': 6}, wall={'quick': 900.0, 'thorough': 1500.0}, weight=2,
+             shards={'quick': 1, 'thorough': 6}, wall={'quick': 300.0, 'thorough': 1500.0}, weight=2,
              rule='always non-trivial (every (m,l) entry is probed, row mixing by dense fields)',
              doc='modal-only operator comparison up to L = 128 with one probe per total wavenumber'),
     Subcheck('nodal_derivatives', run_nodal, strategy=_nodal_strategy,
              examples={'quick': 24, 'thorough': 160}, shards={'quick': 2, 'thorough': 8},
-             wall={'quick': 900.0, 'thorough': 1500.0}, weight=3,
+             wall={'quick': 300.0, 'thorough': 1500.0}, weight=3,
              rule='non-trivial = L >= 3 and M >= 2',
              doc='nodal values of derivatives / winds of every basis function vs analytic oracle derivatives'),
     Subcheck('identities_and_wind_roundtrip', run_identities, strategy=_identities_strategy,
              examples={'quick': 20, 'thorough': 160}, shards={'quick': 2, 'thorough': 8},
-             wall={'quick': 900.0, 'thorough': 1500.0}, weight=4,
+             wall={'quick': 300.0, 'thorough': 1500.0}, weight=4,
              rule='non-trivial = vector-resolved grid with L >= 3 and M >= 2',
              doc='vor/div -> u,v -> vor/div = identity matrix; curl grad = 0, div grad = Laplacian, ...'),
     Subcheck('random_fields', run_random, strategy=lambda tier: _random_case(tier),
              examples={'quick': 30, 'thorough': 300}, shards={'quick': 2, 'thorough': 8},
-             wall={'quick': 900.0, 'thorough': 1500.0}, weight=2,
+             wall={'quick': 300.0, 'thorough': 1500.0}, weight=2,
              rule='non-trivial = input touches m=l, l=L-2 / L-1 or carries dense noise, or radius != 1',
              doc='dense / sparse random (vorticity, divergence) with leading axes: round trip and analytic winds'),
 ]
